@@ -103,6 +103,26 @@ pub fn install() {
     verif::install(&HOOKS);
 }
 
+/// Events produced on the controller thread (set-up before a run, tear-down after it) while
+/// controller logging is on. They carry thread index CTL_THREAD.
+pub const CTL_THREAD: usize = 99;
+static CTL_LOG: Mutex<Option<Vec<Event>>> = Mutex::new(None);
+
+pub fn ctl_log_begin() {
+    install();
+    *CTL_LOG.lock().unwrap() = Some(Vec::new());
+}
+
+pub fn ctl_log_take() -> Vec<Event> {
+    CTL_LOG.lock().unwrap().take().unwrap_or_default()
+}
+
+fn ctl_push(ev: Event) {
+    if let Some(v) = CTL_LOG.lock().unwrap().as_mut() {
+        v.push(ev);
+    }
+}
+
 fn park_forever() -> ! {
     loop {
         std::thread::park();
@@ -199,7 +219,23 @@ fn push_ctl(st: &mut State, thr: usize, depth: usize, name: &str, a: u64, b: u64
 fn hook_after(op: &Op, old: u64, new: u64, ok: bool) {
     let i = match VTID.with(|v| v.get()) {
         Some(i) => i,
-        None => return,
+        None => {
+            ctl_push(Event {
+                thr: CTL_THREAD,
+                depth: 0,
+                kind: op.kind,
+                name: op.name.to_string(),
+                loc: op.loc,
+                ord: op.ord,
+                fail: op.fail,
+                a: op.a,
+                b: op.b,
+                old,
+                new,
+                ok,
+            });
+            return;
+        }
     };
     let s = sched();
     let mut st = s.m.lock().unwrap();
@@ -283,7 +319,23 @@ fn hook_after(op: &Op, old: u64, new: u64, ok: bool) {
 pub fn note(name: &str, a: u64, b: u64) {
     let i = match VTID.with(|v| v.get()) {
         Some(i) => i,
-        None => return,
+        None => {
+            ctl_push(Event {
+                thr: CTL_THREAD,
+                depth: 0,
+                kind: Kind::Event,
+                name: name.to_string(),
+                loc: 0,
+                ord: Ordering::Relaxed,
+                fail: Ordering::Relaxed,
+                a,
+                b,
+                old: 0,
+                new: 0,
+                ok: true,
+            });
+            return;
+        }
     };
     let s = sched();
     let mut st = s.m.lock().unwrap();
@@ -702,6 +754,7 @@ pub fn run(bodies: Vec<Body>, strategy: &mut dyn Strategy, cfg: &RunCfg) -> RunR
     }
     // Wind down.
     st.active = false;
+    st.deliver = None;
     let mut stuck = Vec::new();
     let mut all_done = true;
     for (i, t) in st.threads.iter_mut().enumerate() {
